@@ -350,20 +350,48 @@ func (c *Ctx) runSketchTraces(nTraces int, weighted bool, nValues int, purpose s
 	if !c.phase("sketch traces " + purpose) {
 		return
 	}
+	rng := rand.New(rand.NewSource(c.Seed*6151 + int64(len(purpose))))
+	grand := 0
+	for done := 0; done < nTraces; {
+		n, lines, ok := c.runSketchTraceChunk(nTraces-done, weighted, nValues, purpose, rng)
+		done += n
+		grand += lines
+		if !ok {
+			break
+		}
+	}
+	fmt.Printf("  [sketch traces %s] %d traces, %d recorded events (adds, merges, quantile queries) validated by TLC %.0fs\n", purpose, nTraces, grand, time.Since(c.phaseStart).Seconds())
+}
+
+// safeRecordSketchTrace turns a panic of the library under the driver into a reported problem
+func safeRecordSketchTrace(w *bufio.Writer, rng *rand.Rand, weighted bool, nValues int) (p string, n int) {
+	defer func() {
+		if r := recover(); r != nil {
+			p = fmt.Sprintf("panic: %v", r)
+		}
+	}()
+	return recordSketchTrace(w, rng, weighted, nValues)
+}
+
+// runSketchTraceChunk records up to maxTraces executions (until the file holds maxTraceLines lines) and validates the
+// file; it returns the number of traces recorded, the lines validated and false if a violation was reported
+func (c *Ctx) runSketchTraceChunk(maxTraces int, weighted bool, nValues int, purpose string, rng *rand.Rand) (int, int, bool) {
 	path := filepath.Join(c.Scratch, fmt.Sprintf("sketch-trace-%d.ndjson", time.Now().UnixNano()))
 	f, _ := os.Create(path)
+	defer os.Remove(path)
 	w := bufio.NewWriterSize(f, 1<<20)
-	rng := rand.New(rand.NewSource(c.Seed*6151 + int64(len(purpose))))
 	total := 0
-	for i := 0; i < nTraces; i++ {
-		p, n := recordSketchTrace(w, rng, weighted, nValues)
+	nTraces := 0
+	for nTraces < maxTraces && total < maxTraceLines {
+		p, n := safeRecordSketchTrace(w, rng, weighted, nValues)
 		total += n
+		nTraces++
 		if p != "" {
 			w.Flush()
 			f.Close()
 			c.report(&Violation{Pipeline: "sketchtrace", Case: map[string]interface{}{"seed": c.Seed, "purpose": purpose}, What: "while recording a trace on real sketches: " + p,
 				Tags: map[string]string{"outcome": "driver"}})
-			return
+			return nTraces, total, false
 		}
 	}
 	w.Flush()
@@ -387,5 +415,5 @@ func (c *Ctx) runSketchTraces(nTraces int, weighted bool, nValues int, purpose s
 	c.Ev.Coverage.TraceEvents += int64(total)
 	c.Ev.Coverage.Evaluations += int64(total)
 	c.mu.Unlock()
-	fmt.Printf("  [sketch traces %s] %d traces, %d recorded events (adds, merges, quantile queries) validated by TLC %.0fs\n", purpose, nTraces, total, time.Since(c.phaseStart).Seconds())
+	return nTraces, total, res.Violated == ""
 }
